@@ -52,6 +52,13 @@ def mkfile_schema(version, kind, filler=None):
         xt = int(kind.split('-')[1])
         vars_ = [T.Var('f', D.NC_BYTE, [2]), T.Var('r', xt, [0, 2], [T.Att('long_name', D.NC_CHAR, b'rec')])]
         return T.File(version, dims, gatts, vars_, 3)
+    if kind.startswith('bigrec-'):
+        # a record variable too large for its vsize field (4 GiB per record: saturated vsize in CDF-1/2), legal as the LAST record variable, with
+        # fixed-size variables defined before / after it and a small record variable in front; no records, so the file is a few hundred bytes
+        dims = [T.Dim('t', 0), T.Dim('huge', 2 ** 30), T.Dim('x', 2)]
+        big = T.Var('big', D.NC_INT, [0, 1], [T.Att('units', D.NC_CHAR, b'K')]); fx = T.Var('tail', D.NC_SHORT, [2]); r0 = T.Var('r0', D.NC_BYTE, [0, 2]); f0 = T.Var('head', D.NC_INT, [2])
+        vars_ = {'bigrec-after': [big, fx], 'bigrec-before': [f0, big], 'bigrec-between': [f0, r0, big, fx], 'bigrec-recfirst': [r0, big, fx, f0]}[kind]
+        return T.File(version, dims, gatts, vars_, 0)
     raise ValueError(kind)
 
 
@@ -198,6 +205,14 @@ def main(tier=None):
                     name = 'HINT-v%d-%s-h%d-np%d' % (ver, kind, hi, np)
                     c, ctx = build_case(name, raw, f, data, np, None, h, 0)
                     jobs.append((name, c, ctx, f, data))
+    # (1d) the one record variable that may exceed the vsize field (saturated in CDF-1/2), with fixed-size variables defined before and after it
+    for ver in (1, 2, 5):
+        for kind in ('bigrec-after', 'bigrec-before', 'bigrec-between', 'bigrec-recfirst'):
+            f = mkfile_schema(ver, kind); cdf.layout(f); data = gen_data(f); raw = cdf.encode(f, data)
+            for np, chunk in ((1, None), (2, 48)):
+                name = 'BIG-v%d-%s-np%d' % (ver, kind, np)
+                c, ctx = build_case(name, raw, f, data, np, chunk)
+                jobs.append((name, c, ctx, f, data))
     for ver in (1, 2, 5):
         f = mkfile_schema(ver, 'manydims'); cdf.layout(f); data = gen_data(f); raw = cdf.encode(f, data)
         for np, chunk in ((1, None), (2, 64)):
@@ -230,7 +245,7 @@ def main(tier=None):
         judge(ck, name, c, ctx, r, f, data)
     ck.cov['distinct_nontrivial'] = len(set(j[1].ops[1] for j in jobs))
     ck.cov['rule'] = ('files produced by the independent encoder: 4 schemas x 3 formats x layout freedoms {gaps before/between variables, gap before the record section, vsize correct/0/stale/all-ones, '
-                      'ABSENT vs tag+0 empty lists, non-zero bytes in free space} x {np, header chunk size via hook, collective header read, safe mode}; one open hint at a time (17 hint strings incl. each name-table size alone); a file with exactly one record variable for every external type of each format; a file whose variables have 17, 30, 20 and 18 dimensions; every variable is read whole, record by record and at its last element; every header token placed at every 4-byte offset '
+                      'ABSENT vs tag+0 empty lists, non-zero bytes in free space} x {np, header chunk size via hook, collective header read, safe mode}; one open hint at a time (17 hint strings incl. each name-table size alone); files whose last record variable needs 4 GiB per record (saturated vsize in CDF-1/2) with fixed-size variables defined before / after it and no records; a file with exactly one record variable for every external type of each format; a file whose variables have 17, 30, 20 and 18 dimensions; every variable is read whole, record by record and at its last element; every header token placed at every 4-byte offset '
                       'relative to a chunk end for chunk sizes %s (filler attribute sweep) and around the real 256 KiB boundary; distinct_nontrivial = distinct input files' % chunks)
     ck.sample(jobs[0][1].text()[:1200]); ck.sample(jobs[len(jobs) // 2][1].text()[:1200])
     ck.assumptions += ['begins increasing in definition order within each section (as the property states)', 'hook PNETCDF_VERIF_HDR_CHUNK stands in for the hint nc_header_read_chunk_size, which the library parses but never stores']
